@@ -120,6 +120,7 @@ class Run:
         self.cur_exc = False
         self.stuck = False
         self.handovers = 0
+        self.giveups = 0
         self.last_keys: dict = {}
 
     # ------------------------------------------------------------------ worker programs
@@ -159,7 +160,8 @@ class Run:
                         finally:
                             self.leave(w, k)
                 finally:
-                    self.waiting.pop(w, None)
+                    if self.waiting.pop(w, None) is not None:
+                        self.giveups += 1          # left the queue without getting the lock
                     self.handover_check(k)
         return i
 
@@ -305,7 +307,7 @@ class Run:
                     if static[2] != best[2]:
                         self.tags.add("handover-decided-by-inherited-priority")
                 if best[2] != w:
-                    self.fail("handover-order",
+                    self.fail("handover-order-after-giveup" if self.giveups else "handover-order",
                               f"lock {k} handed to worker {w} (eff {fr(self.eff(w))}, arrival "
                               f"{self.arrival.get(w)}) while worker {best[2]} (eff {fr(best[0])}, "
                               f"arrival {best[1]}) is waiting; waiters="
@@ -383,6 +385,10 @@ class Run:
             h, hops = self.holder.get(k), 0
             while h is not None and hops < 10:
                 if h == x:
+                    # the holder itself runs; did inheritance put it ahead of a runnable task
+                    # that is more urgent than the holder's own priority but less urgent than W?
+                    if any(m != x and ew < self.eff(m) < self.owns[x] for m in rm):
+                        self.tags.add("holder-ran-ahead-of-medium-task")
                     break
                 if h in rm:
                     self.tags.add("sched-decision-with-runnable-holder")
